@@ -82,3 +82,10 @@ func forall(lo, hi int, f func(int) bool) bool {
 //@   property C09
 //@   nosafety
 //@   modifies nothing
+
+// ---- rescaling (C06): a checkpoint merged from several operators' checkpoints
+// must be serialisable at the next save (all its WALs) ...
+//@ func Checkpoint.Document
+//@   property C06 C08
+//@   requires cp.Levels != nil
+//@   ensures result.ID == cp.ID && result.LastSeqNum == cp.LastSeqNum && len(result.WALs) == len(cp.WALs)
